@@ -232,60 +232,12 @@ func c15(c *Ctx) {
 	}
 
 	// ---- C15.4 timestamps enter the engine at microsecond precision --------------------------------------------------------
-	r = "C15.4/timestamp-normalised"
-	nts := 0
-	for _, fn := range c.allFns {
-		if !fnInPkgs(fn, []string{"embedded/sql"}) {
-			continue
-		}
-		i := 0
-		allInstrs(fn, false, func(in ssa.Instruction) {
-			st, ok := in.(*ssa.Store)
-			if !ok {
-				return
-			}
-			fl, base := fieldOf(st.Addr)
-			if fl != "Timestamp.val" || !isFreshAlloc(base) {
-				return
-			}
-			nts++
-			i++
-			construct := fmt.Sprintf("%s:Timestamp#%d", fnName(fn), i)
-			if reason, ok := c15TimestampExempt[fnName(topFn(fn))]; ok {
-				c.okTrivial(r, construct, c.pos(in.Pos()), "exempt: "+reason)
-				return
-			}
-			norm := dependsOn(st.Val, func(v ssa.Value) bool {
-				cl, ok := v.(*ssa.Call)
-				if !ok {
-					return false
-				}
-				n := calleeName(&cl.Call)
-				if n == "time.(Time).Truncate" && len(cl.Call.Args) == 2 && desc(cl.Call.Args[1]) == "const:1000" {
-					return true
-				}
-				return n == "embedded/sql.TimeFromInt64"
-			})
-			c.check(norm, r, construct, c.pos(in.Pos()), "value passes Truncate(time.Microsecond) / TimeFromInt64",
-				"a Timestamp value is built from a time that was not truncated to microseconds: its index key (nanoseconds) differs from the key of the value it decodes back to")
-		})
-	}
-	if nts < 5 {
-		c.undecided(r, "floor", fmt.Sprintf("expected >=5 Timestamp constructions, found %d", nts))
-	}
-	if f := c.mustFn(r, "embedded/sql.TimeFromInt64"); f != nil {
-		okv := false
-		allInstrs(f, false, func(in ssa.Instruction) {
-			if cl, ok := in.(*ssa.Call); ok && calleeName(&cl.Call) == "time.Unix" {
-				if strings.Contains(desc(cl.Call.Args[0]), "/ const:1000000") || strings.Contains(desc(cl.Call.Args[1]), "* const:1000") {
-					okv = true
-				}
-			}
-		})
-		c.check(okv, r, fnName(f)+":microseconds", c.pos(f.Pos()), "interprets its argument as microseconds", "TimeFromInt64 no longer converts from microseconds")
-	}
+	c15TimestampNormalised(c, "C15.4/timestamp-normalised")
 
 	c15CursorAdvance(c, "C15.6/cursor-advance-matches-read", c16Decoders)
+	// an exported transaction decodes back to the committed values only if the bytes appended to the export are the bytes
+	// just read: the shared value buffer is used under its mutex (analysis shared with C07.8 / C14.1)
+	c14ExportBuffer(c, "C15.8/export-carries-the-read-bytes")
 	// ---- C15.4 (keys) nanosecond keys are built only from timestamps that fit ----------------------------------------
 	// the key codec holds UnixNano() in 8 bytes: outside 1677..2262 UnixNano is undefined and the key order is not the
 	// value order; the conversion is dominated by a lower and an upper range test of the same value
@@ -534,4 +486,61 @@ func splitConst(v ssa.Value) (ssa.Value, int64) {
 		return nil, 0
 	}
 	return v, 0
+}
+
+// c15TimestampNormalised: every Timestamp value built inside the SQL engine is truncated to microseconds (the
+// precision of the value codec); index keys are built from nanoseconds, so an untruncated time gives a key that differs
+// from the key of the value it decodes back to (shared with C12: primary-key and UNIQUE probes compare keys).
+func c15TimestampNormalised(c *Ctx, r string) {
+	nts := 0
+	for _, fn := range c.allFns {
+		if !fnInPkgs(fn, []string{"embedded/sql"}) {
+			continue
+		}
+		i := 0
+		allInstrs(fn, false, func(in ssa.Instruction) {
+			st, ok := in.(*ssa.Store)
+			if !ok {
+				return
+			}
+			fl, base := fieldOf(st.Addr)
+			if fl != "Timestamp.val" || !isFreshAlloc(base) {
+				return
+			}
+			nts++
+			i++
+			construct := fmt.Sprintf("%s:Timestamp#%d", fnName(fn), i)
+			if reason, ok := c15TimestampExempt[fnName(topFn(fn))]; ok {
+				c.okTrivial(r, construct, c.pos(in.Pos()), "exempt: "+reason)
+				return
+			}
+			norm := dependsOn(st.Val, func(v ssa.Value) bool {
+				cl, ok := v.(*ssa.Call)
+				if !ok {
+					return false
+				}
+				n := calleeName(&cl.Call)
+				if n == "time.(Time).Truncate" && len(cl.Call.Args) == 2 && desc(cl.Call.Args[1]) == "const:1000" {
+					return true
+				}
+				return n == "embedded/sql.TimeFromInt64"
+			})
+			c.check(norm, r, construct, c.pos(in.Pos()), "value passes Truncate(time.Microsecond) / TimeFromInt64",
+				"a Timestamp value is built from a time that was not truncated to microseconds: its index key (nanoseconds) differs from the key of the value it decodes back to")
+		})
+	}
+	if nts < 5 {
+		c.undecided(r, "floor", fmt.Sprintf("expected >=5 Timestamp constructions, found %d", nts))
+	}
+	if f := c.mustFn(r, "embedded/sql.TimeFromInt64"); f != nil {
+		okv := false
+		allInstrs(f, false, func(in ssa.Instruction) {
+			if cl, ok := in.(*ssa.Call); ok && calleeName(&cl.Call) == "time.Unix" {
+				if strings.Contains(desc(cl.Call.Args[0]), "/ const:1000000") || strings.Contains(desc(cl.Call.Args[1]), "* const:1000") {
+					okv = true
+				}
+			}
+		})
+		c.check(okv, r, fnName(f)+":microseconds", c.pos(f.Pos()), "interprets its argument as microseconds", "TimeFromInt64 no longer converts from microseconds")
+	}
 }
